@@ -69,7 +69,26 @@ def run_property(prop, tier, seed, jobs=None, only=None, verbose=False):
     functions = set()
     solver_s = 0.0
     backends = {}
+    # helper contracts: a symbolic-arity family that used the contract of a helper stands only
+    # if the helper's own family (same run) established that contract
+    HELPER_FAMILIES = {"math_functions.multiply": ["math_functions.multiply[any arity]"],
+                       "utilities.list_without_entry_at": ["utilities.list_without_entry_at[any length]"],
+                       "utilities.list_with_updated_entry_at": ["utilities.list_with_updated_entry_at[any length]"],
+                       "utilities.partition_by_predicate": ["utilities.partition_by_predicate[any length]"],
+                       "utilities.first_match_by_predicate": ["utilities.first_match_by_predicate[any length]"],
+                       "NAryExpression.__init__": ["Add[any arity].__init__", "Multiply[any arity].__init__"]}
+    by_name = {r["family"]: r for r in results}
+
+    def established(fname):
+        r0 = by_name.get(fname)
+        return r0 is not None and not r0["error"] and r0["obls"] and all(o["status"] == "proved" for o in r0["obls"])
+    unestablished = {h for h, fams in HELPER_FAMILIES.items() if not all(established(f) for f in fams)}
     for r in results:
+        if r.get("optional") and not r["error"]:
+            missing = sorted(set(r.get("helpers") or []) & unestablished)
+            if missing and r["family"] not in sum(HELPER_FAMILIES.values(), []):
+                r = dict(r, error=f"unsupported: the contract of {missing[0]} that this proof uses is not established for the current code "
+                                  f"(see the helper's own family)", obls=[])
         if r.get("optional") and not r["error"]:
             # a sidecar loop invariant that is not inductive for the current loop body does not
             # refute the code (the invariant may simply not fit a rewritten loop): the
